@@ -777,7 +777,14 @@ func run(h History, faults []int) result {
 				return w.st.RemoveServiceWithChecks(svcID(st.ID), ids)
 			})
 		case "addchk":
-			rc, pmsg = guard(func() error { return w.st.AddCheck(buildChk(st.ID, *st.Chk), tokens[st.Tok], st.Loc) })
+			rc, pmsg = guard(func() error {
+				hc := buildChk(st.ID, *st.Chk)
+				if h.WF && hc.ServiceID != "" && w.st.Service(hc.CompoundServiceID()) == nil {
+					// agent.addCheckLocked: "ServiceID %q does not exist" (absent or marked deleted)
+					return fmt.Errorf("ServiceID %q does not exist", hc.ServiceID)
+				}
+				return w.st.AddCheck(hc, tokens[st.Tok], st.Loc)
+			})
 		case "rmchk":
 			rc, pmsg = guard(func() error { return w.st.RemoveCheck(chkID(st.ID)) })
 		case "updchk":
